@@ -72,7 +72,7 @@ Proof.
         rewrite wrap32_small by lia.
         unfold add_u32, two32. replace (zz id p1 + 1 <? 4294967296) with true by (symmetry; apply N.ltb_lt; exact Hb).
         cbn [ou32]. exists (zz id p1 + 1). split; [reflexivity|]. split; [exact Hb|].
-        assert (Hnz : zz id p1 <> 0) by (intro Z0; apply zz_zero_iff in Z0; subst p1; lia).
+        assert (Hnz : zz id p1 <> 0) by (intro Z0; apply (proj1 (zz_zero_iff id p1)) in Z0; subst p1; lia).
         unfold dec_in.
         replace (prev =? -1)%Z with false by (symmetry; apply Z.eqb_neq; exact Hne).
         replace (zz id p1 + 1 =? 0) with false by (symmetry; apply N.eqb_neq; lia).
@@ -119,19 +119,19 @@ Lemma seg_roundtrip pred t s :
 Proof.
   intros Hp Ht Hs. pose proof Ht as [Hall Hmax].
   assert (Hin : exists e, enc_in (pget t (sg s)) (si s) = Ok e /\ e < 4294967296 /\ dec_in (pget t (sg s)) e = Ok (si s)).
-  { apply in_roundtrip; [apply Hall|]. destruct Hs as [[_ [H _]]|->]; [left; exact H|].
+  { apply in_roundtrip; [apply Hall|]. destruct Hs as [[_ [H _]]| ->]; [left; exact H|].
     right. unfold seg_empty, seg_empty_in_group, seg_empty_group. cbn [si sg]. split; [reflexivity | exact Hmax]. }
   assert (Hlen : sl s < 4294967296).
-  { destruct Hs as [[_ [_ H]]|->]; [exact H|]. unfold seg_empty, seg_empty_len. cbn [sl]. lia. }
+  { destruct Hs as [[_ [_ H]]| ->]; [exact H|]. unfold seg_empty, seg_empty_len. cbn [sl]. lia. }
   assert (Hg : sg s < 4294967296).
-  { destruct Hs as [[H _]|->]; [lia|]. unfold seg_empty, seg_empty_group. cbn [sg]. lia. }
+  { destruct Hs as [[H _]| ->]; [lia|]. unfold seg_empty, seg_empty_group. cbn [sg]. lia. }
   destruct Hin as [e [He1 [He2 He3]]].
   destruct (len_roundtrip pred (sl s) Hp Hlen) as [l [Hl1 [Hl2 Hl3]]].
   unfold enc_seg. rewrite He1. cbn [obnd]. rewrite Hl1. cbn [obnd].
   eexists. eexists. split; [reflexivity|]. split; [|split].
   - unfold item_ok, i_g, i_e, i_l, i_r. cbn [fst snd]. repeat split; try assumption. destruct (src s); lia.
   - apply pupd_inv; [exact Ht | reflexivity|].
-    destruct Hs as [[H1 [H2 _]]|->]; [left; split; assumption | right; split; reflexivity].
+    destruct Hs as [[H1 [H2 _]]| ->]; [left; split; assumption | right; split; reflexivity].
   - unfold dec_item, i_g, i_e, i_l, i_r. cbn [fst snd]. rewrite He3. cbn [obnd]. rewrite Hl3. cbn [obnd].
     destruct s as [g i r l']. cbn [sg si src sl]. destruct r; reflexivity.
 Qed.
@@ -143,7 +143,8 @@ Lemma segs_roundtrip pred : forall ss t,
     forall rest, dec_segs pred t (length ss) (its ++ rest) = Ok (ss, t', rest).
 Proof.
   induction ss as [|s ss IH]; intros t Hp Ht Hs.
-  - exists [], t. repeat split; try assumption; constructor.
+  - exists [], t. split; [reflexivity|]. split; [reflexivity|]. split; [constructor|]. split; [assumption|].
+    intro rest; reflexivity.
   - inversion Hs as [|? ? Hs1 Hs2]; subst.
     destruct (seg_roundtrip pred t s Hp Ht Hs1) as [it [t1 [E1 [I1 [T1 D1]]]]].
     destruct (IH t1 Hp T1 Hs2) as [its [t2 [E2 [L2 [I2 [T2 D2]]]]]].
@@ -162,7 +163,8 @@ Lemma contigs_roundtrip_d pred : forall cs t,
     forall rest, dec_contigs_d pred t (map lenN e) (concat e ++ rest) = Ok (cs, t', rest).
 Proof.
   induction cs as [|c cs IH]; intros t Hp Ht Hc.
-  - exists [], t. repeat split; try assumption; constructor.
+  - exists [], t. split; [reflexivity|]. split; [reflexivity|]. split; [constructor|]. split; [assumption|].
+    intro rest; reflexivity.
   - inversion Hc as [|? ? [Hc1 _] Hc2]; subst.
     destruct (segs_roundtrip pred c t Hp Ht Hc1) as [its [t1 [E1 [L1 [I1 [T1 D1]]]]]].
     destruct (IH t1 Hp T1 Hc2) as [e [t2 [E2 [L2 [I2 [T2 D2]]]]]].
@@ -179,7 +181,8 @@ Lemma samples_roundtrip_d pred : forall ss t,
     forall rest, dec_samples_d pred t (map (map lenN) e) (flat_items e ++ rest) = Ok (ss, t', rest).
 Proof.
   induction ss as [|s ss IH]; intros t Hp Ht Hs.
-  - exists [], t. repeat split; try assumption; constructor.
+  - exists [], t. split; [reflexivity|]. split; [reflexivity|]. split; [constructor|]. split; [assumption|].
+    intro rest; reflexivity.
   - inversion Hs as [|? ? [Hs1 _] Hs2]; subst.
     destruct (contigs_roundtrip_d pred s t Hp Ht Hs1) as [e1 [t1 [E1 [L1 [I1 [T1 D1]]]]]].
     destruct (IH t1 Hp T1 Hs2) as [e [t2 [E2 [L2 [I2 [T2 D2]]]]]].
@@ -212,20 +215,23 @@ Proof.
   rewrite <- !app_assoc. rewrite cvarint_roundtrip_proof by exact Hs. cbn [obnd fst snd].
   rewrite str0_contigs_eq by exact Hc.
   rewrite clamp_id.
-  2:{ rewrite lenN_app. pose proof (concat_cv_len (map lenN s)). rewrite map_length in *. unfold lenN. lia. }
+  2:{ rewrite lenN_app. pose proof (concat_cv_len (map lenN s)) as H0. rewrite map_length in H0. unfold lenN in *. lia. }
   rewrite to_nat_lenN. rewrite <- (map_length lenN s).
   rewrite cv_decode_n_roundtrip.
   2:{ rewrite Forall_map. exact Hc. }
   cbn [obnd fst snd]. rewrite IH by exact He. reflexivity.
 Qed.
 
+Lemma sumN_cons x l : sumN (x :: l) = x + sumN l.
+Proof. reflexivity. Qed.
+Lemma sum_lens (s : list (list item)) : sumN (map lenN s) = lenN (concat s).
+Proof.
+  induction s as [|c s IH]; [reflexivity|]. cbn [map concat]. rewrite sumN_cons, lenN_app, IH. reflexivity.
+Qed.
 Lemma sum_structure (e : list (list (list item))) : sumN (map sumN (map (map lenN) e)) = lenN (flat_items e).
 Proof.
   unfold flat_items. induction e as [|s e IH]; [reflexivity|].
-  cbn [map sumN fold_right concat]. rewrite concat_app, lenN_app. fold (sumN (map sumN (map (map lenN) e))).
-  rewrite IH. f_equal. clear IH.
-  induction s as [|c s IH]; [reflexivity|]. cbn [map fold_right concat]. rewrite lenN_app.
-  fold (sumN (map lenN s)). unfold sumN in IH. unfold sumN. rewrite IH. reflexivity.
+  cbn [map concat]. rewrite sumN_cons, IH, sum_lens, concat_app, lenN_app. reflexivity.
 Qed.
 
 Lemma zip4_items fl : zip4 (map i_g fl) (map i_e fl) (map i_l fl) (map i_r fl) = fl.
